@@ -189,7 +189,7 @@ func main() {
 	r.FloorCount("raftstore_replica_restarts", int64(r.Pick(1, 25)))
 	r.FloorCount("concurrent_lookups", int64(r.Pick(5000, 200000)))
 	r.FloorCount("concurrent_lookups_overlapping_an_update", int64(r.Pick(1000, 100000)))
-	r.FloorCount("concurrent_snapshots_saved_and_restored", int64(r.Pick(250, 3000)))
+	r.FloorCount("concurrent_snapshots_saved_and_restored", int64(r.Pick(150, 2000)))
 	r.Finish()
 }
 
